@@ -546,6 +546,16 @@ func (in *Interp) bufName(st *State, v BufV) string {
 	case "param":
 		return "P"
 	}
+	// a freshly made buffer already stored in a receiver field is named by that field
+	best := ""
+	for p, fv := range st.fields {
+		if bv, ok := fv.(BufV); ok && bv.ID == v.ID && strings.HasPrefix(p, "$.") && (best == "" || p < best) {
+			best = p
+		}
+	}
+	if best != "" {
+		return best
+	}
 	return fmt.Sprintf("%s#%d", b.Origin, v.ID)
 }
 
